@@ -142,13 +142,16 @@ func parseMsg(v tla.Value) (m Msg, ok bool) {
 
 // msgOfWrite / msgOfRead: payloads written by this driver are tuples <<sender, seq, ...>>. The shipped
 // dqueue consumers send their bare id as a request: such payloads are numbered by the decorator
-// (k-th request of that consumer), which keeps loss/duplication observable by count.
+// (k-th request of that consumer in committed sections; the numbering is rolled back when the
+// section aborts, since the retry sends / re-reads the same request), which keeps loss and
+// duplication observable by count.
 func (n *node) msgOfWrite(v tla.Value, to int) Msg {
 	if m, ok := parseMsg(v); ok {
 		return m
 	}
 	if v.StripVClock().IsNumber() {
 		n.wseq[to]++
+		n.secW[to]++
 		return Msg{n.id, n.wseq[to]}
 	}
 	return Msg{-1, -1}
@@ -161,6 +164,7 @@ func (n *node) msgOfRead(v tla.Value) Msg {
 	if sv := v.StripVClock(); sv.IsNumber() {
 		s := int(sv.AsNumber())
 		n.rseq[s]++
+		n.secR[s]++
 		return Msg{s, n.rseq[s]}
 	}
 	return Msg{-1, -1}
@@ -350,6 +354,8 @@ type node struct {
 	free    bool // dqueue mode: nobody waits for replies
 	wseq    map[int]int
 	rseq    map[int]int
+	secW    map[int]int
+	secR    map[int]int
 	runErr  error
 }
 
@@ -369,8 +375,18 @@ func (n *node) commitStarted() {
 	n.cr.gotC[n.id] += len(n.reads)
 	n.cr.mu.Unlock()
 	n.writes, n.reads = nil, nil
+	n.secW, n.secR = map[int]int{}, map[int]int{}
 }
-func (n *node) aborted() { n.writes, n.reads = nil, nil }
+func (n *node) aborted() {
+	n.writes, n.reads = nil, nil
+	for to, k := range n.secW {
+		n.wseq[to] -= k
+	}
+	for s, k := range n.secR {
+		n.rseq[s] -= k
+	}
+	n.secW, n.secR = map[int]int{}, map[int]int{}
+}
 
 // RecordEvent is called by the context at the end of every attempt (commit or abort).
 func (n *node) RecordEvent(ev trace.Event) {
@@ -480,7 +496,7 @@ func (cr *caseRun) mailboxOpts() []resources.MailboxesOption {
 
 func (cr *caseRun) newNode(id int) *node {
 	n := &node{id: id, cr: cr, cmds: make(chan Cmd, 4096), res: make(chan string, 4096), veto: &vetoRes{},
-		done: make(chan struct{}), wseq: map[int]int{}, rseq: map[int]int{}}
+		done: make(chan struct{}), wseq: map[int]int{}, rseq: map[int]int{}, secW: map[int]int{}, secR: map[int]int{}}
 	var inner, lenInner distsys.ArchetypeResource
 	amf := func(index tla.Value) (resources.MailboxKind, string) {
 		i := int(index.AsNumber())
@@ -943,7 +959,7 @@ func runDqueue(c Case) []Event {
 	}
 	cr.log(cr.header("dqueue"))
 	mk := func(id int) (*node, distsys.ArchetypeResource) {
-		n := &node{id: id, cr: cr, free: true, veto: &vetoRes{}, done: make(chan struct{}), wseq: map[int]int{}, rseq: map[int]int{}}
+		n := &node{id: id, cr: cr, free: true, veto: &vetoRes{}, done: make(chan struct{}), wseq: map[int]int{}, rseq: map[int]int{}, secW: map[int]int{}, secR: map[int]int{}}
 		cr.nodes[id] = n
 		mb := resources.NewTCPMailboxes(func(index tla.Value) (resources.MailboxKind, string) {
 			i := int(index.AsNumber())
